@@ -194,7 +194,20 @@ def fam_swagger() -> dict:
     }}
 
 
-FAMILY = {"params": fam_params, "bodies": fam_bodies, "links": fam_links, "rich": fam_rich, "swagger": fam_swagger}
+def fam_many(n: int = 32) -> dict:
+    """Many small operations: with several workers there is always another operation being prepared while one is started."""
+    paths = {}
+    for i in range(n):
+        params = [{"name": "n", "in": "query", "required": True, "schema": {"type": "integer"}}]
+        if i % 3 == 1:
+            params.append({"name": "flag", "in": "query", "required": True, "schema": {"type": "boolean"}})
+        if i % 3 == 2:
+            params.append({"name": "s%d" % i, "in": "query", "required": True, "schema": {"type": "string", "maxLength": 6}})
+        paths["/m%d" % i] = {"get": {"operationId": "m%d" % i, "parameters": params, "responses": OK}}
+    return {"openapi": "3.0.2", "info": {"title": "many", "version": "1"}, "paths": paths}
+
+
+FAMILY = {"many": fam_many, "params": fam_params, "bodies": fam_bodies, "links": fam_links, "rich": fam_rich, "swagger": fam_swagger}
 TEMPLATES = ["/items/{id}", "/search", "/items", "/users/{id}", "/users", "/things", "/broken"]
 _TEMPLATE_RE = [(t, re.compile("^" + re.sub(r"\{[^}]+\}", "[^/]*", t) + "$")) for t in TEMPLATES]
 
@@ -239,6 +252,10 @@ QUICK = [  # (schema, phases, modes[, extras: fixed seed / unexpected_methods])
     ("rich", ["examples", "fuzzing"], ["positive", "negative"], {"unique_inputs": True}),
     ("swagger", ["coverage", "fuzzing"], ["positive", "negative"], {"continue_on_failure": True}),
     ("links", ["stateful"], ["positive", "negative"], {"unique_inputs": True, "max_failures": 2}),
+    # derandomised mode (`--generation-deterministic`, no seed): the stream of an operation comes from the digest of its own test
+    ("many", ["fuzzing"], ["positive"], {"deterministic": True, "workers_n": 4}),
+    ("many", ["fuzzing"], ["positive"], {"deterministic": True, "workers_n": 4, "front": "cli"}),
+    ("params", ["coverage", "fuzzing"], ["positive", "negative"], {"deterministic": True}),
     ("params", ["coverage"], ["positive", "negative"], {"front": "cli"}),         # the CLI front door: `schemathesis run --seed N ...`
     ("bodies", ["fuzzing"], ["negative"], {"front": "cli", "seed": 0}),
 ]
@@ -282,12 +299,18 @@ def configurations(ctx: Ctx) -> list[dict]:
                 extras["max_failures"] = 1 + i % 2
             if i % 9 == 2 and len(p) == 1:
                 extras["front"] = "cli"
+            if i % 10 == 6 and "stateful" not in p:
+                extras["deterministic"] = True
+                extras.pop("seed", None)
         seed = extras.get("seed", seed)
-        out.append({"id": i, "schema": s, "phases": p, "modes": m, "seed": seed, "seed2": abs(seed) + 1 + extra_rnd,
+        if extras.get("deterministic"):
+            seed = None                      # derandomised: no seed at all, the configuration alone determines the data
+        out.append({"id": i, "schema": s, "phases": p, "modes": m, "seed": seed, "seed2": abs(seed or 0) + 1 + extra_rnd,
                     "h1": h1, "h2": h2, "max_examples": 5 if ctx.quick else 6, "steps": 4 if ctx.quick else 5,
                     "diff": (not ctx.quick) or i % 2 == 0, "unexpected_methods": extras.get("unexpected_methods"),
                     "unique_inputs": bool(extras.get("unique_inputs")), "continue_on_failure": bool(extras.get("continue_on_failure")),
-                    "max_failures": extras.get("max_failures"), "front": extras.get("front", "engine")})
+                    "max_failures": extras.get("max_failures"), "front": extras.get("front", "engine"),
+                    "deterministic": bool(extras.get("deterministic")), "workers_n": extras.get("workers_n", 3)})
     return out
 
 
@@ -362,6 +385,8 @@ def run_child(cfg: dict, workdir: str, name: str, hashseed: int, runs: list[dict
 
 
 def operation_of(r) -> str:
+    if re.match(r"^/m\d+$", r.path):
+        return "%s %s" % (r.method, r.path)
     for t, rx in _TEMPLATE_RE:
         if rx.match(r.path):
             return "%s %s" % (r.method, t)
@@ -397,12 +422,13 @@ def run_config(args) -> dict:
     wd = os.path.join(workdir, "cfg-%d" % cfg["id"])
     one = {"seed": cfg["seed"], "workers": 1, "phases": cfg["phases"], "modes": cfg["modes"], "max_examples": cfg["max_examples"], "steps": cfg["steps"],
            "unexpected_methods": cfg.get("unexpected_methods"), "unique_inputs": cfg.get("unique_inputs", False),
-           "continue_on_failure": cfg.get("continue_on_failure", False), "max_failures": cfg.get("max_failures"), "front": cfg.get("front", "engine")}
+           "continue_on_failure": cfg.get("continue_on_failure", False), "max_failures": cfg.get("max_failures"), "front": cfg.get("front", "engine"),
+           "deterministic": cfg.get("deterministic", False)}
     plan = [("A", cfg["h1"], [dict(one, tag="A")]), ("B", cfg["h2"], [dict(one, tag="B")]),
             ("C", cfg["h1"], [dict(one, tag="A1"), dict(one, tag="A2")]),
             # a failure limit stops a multi-worker run at a scheduling-dependent moment: the bag clause speaks about complete runs
-            ("E", cfg["h1"], ([dict(one, tag="W3", workers=3)] if not cfg.get("max_failures") else [])
-             + ([dict(one, tag="D", seed=cfg["seed2"])] if cfg.get("diff", True) else []))]
+            ("E", cfg["h1"], ([dict(one, tag="W3", workers=cfg.get("workers_n", 3))] if not cfg.get("max_failures") else [])
+             + ([dict(one, tag="D", seed=cfg["seed2"])] if cfg.get("diff", True) and not cfg.get("deterministic") else []))]
     plan = [p for p in plan if p[2]]
     plan = [p for p in plan if p[0] in cfg.get("only_children", ["A", "B", "C", "E"])]
     t0 = time.time()
@@ -442,6 +468,8 @@ def build_units(results: list[dict]):
                         fails = [dg.num("f", f) for f in runs[tag]["failures"] if json.loads(f)[0] == {v: k for k, v in PH.items()}[ph]]
                         logs.append({"lines": [dg.line(r) for r in recs], "fails": fails})
                         index[(tag, ph)] = len(logs)
+                if wb > 1:
+                    wb = cfg.get("workers_n", 3)
                 units.append({"a": index[(a, ph)], "b": index[(b, ph)], "ph": ph, "same": same, "wa": wa, "wb": wb, "stateless": True,
                               "limited": bool(cfg.get("max_failures")), "how": how})
                 meta.append({"cfg": cfg, "a": a, "b": b, "ph": ph, "how": how, "dg": dg, "runs": runs})
@@ -561,7 +589,7 @@ def evaluate(ctx: Ctx, out: Outcome, results: list[dict], tag: str = "") -> dict
                 "C13:%s:%s" % (m["ph"], source),
                 "%s phase, %s: runs %s and %s (%s) diverge at %s, first divergent field: %s (%s); schema=%s modes=%s seed=%d" % (
                     m["ph"], op, m["a"], m["b"], m["how"], "request #%d" % line if why != "bag" else "operation #%d" % line, why, detail,
-                    cfg["schema"], "+".join(cfg["modes"]), cfg["seed"]),
+                    cfg["schema"], "+".join(cfg["modes"]), -999 if cfg["seed"] is None else cfg["seed"]),
                 {"cfg": cfg, "phase": m["ph"], "how": m["how"], "field": why, "operation": op}))
         if not samples and units:
             u = units[0]
@@ -571,8 +599,20 @@ def evaluate(ctx: Ctx, out: Outcome, results: list[dict], tag: str = "") -> dict
     return stats
 
 
+def digest_model() -> dict:
+    """spec/ReproDigest.tla: per-operation digest slots satisfy StreamIsOwn, a shared slot is refuted (vacuity guard of the forced schedule)."""
+    per = tlc.require_ok(tlc.run_tlc("ReproDigest", "ReproDigest_perop.cfg", workers=1, timeout=300), "ReproDigest per-operation")
+    shared = tlc.require_ok(tlc.run_tlc("ReproDigest", "ReproDigest_shared.cfg", workers=1, timeout=300), "ReproDigest shared")
+    if per.violated or "StreamIsOwn" not in shared.violated:
+        raise tlc.TLCFailure("ReproDigest: expected StreamIsOwn to hold per operation and to be refuted for a shared slot: %s / %s" % (
+            per.violated, shared.violated))
+    steps = [l.split("<", 1)[1].split(" line", 1)[0] for l in shared.counterexample if l.startswith("State") and "<" in l and "Initial" not in l]
+    return {"states_per_operation": per.distinct, "states_shared": shared.distinct, "refuting_schedule": steps}
+
+
 def run(ctx: Ctx) -> Outcome:
     out = Outcome()
+    model = digest_model()
     cfgs = configurations(ctx)
     t1 = time.time()
     with ThreadPoolExecutor(max_workers=12 if ctx.quick else 8) as ex:
@@ -589,7 +629,9 @@ def run(ctx: Ctx) -> Outcome:
     requests_total = sum(len(rs) for r in results for run_ in r["runs"].values() for rs in run_["phases"].values())
     outside = sum(run_["outside"] for r in results for run_ in r["runs"].values())
     out.coverage = {
-        "states": st["states"], "transitions": st["generated"],
+        "states": st["states"] + model["states_per_operation"] + model["states_shared"], "transitions": st["generated"],
+        "digest_model(ReproDigest.tla)": model,
+        "configurations_derandomised_without_seed": sum(1 for c in cfgs if c.get("deterministic")),
         "traces_validated_against_impl": st["units"],
         "samples": st["samples"],
         "evaluations": requests_total,
@@ -633,6 +675,9 @@ def run(ctx: Ctx) -> Outcome:
         "have started the next operation: single-worker logs of such configurations must agree on the common prefix and may differ by at "
         "most one trailing in-flight request (Repro.tla `limited`); the reported failures must be equal. Observed on /repo: that request is "
         "sent in ~half of the runs under load, its failure is never reported and its operation is counted as skipped",
+        "multi-worker runs of derandomised configurations are executed under the schedule ReproDigest.tla's counterexample names: a harness-side "
+        "rendezvous right after the engine's `setup_hypothesis_database_key` makes every worker finish preparing its operation before any "
+        "of them starts its test (a legal interleaving; no engine state is touched; it times out when fewer workers are left)",
         "Hypothesis health checks and deadlines are off and the example database is disabled in every run (timing must not influence traffic)",
     ]
     return out
